@@ -93,6 +93,12 @@ class ClientBusDriver:
             return err(f)
         d.addCallbacks(lambda v: ok(v if not (strict and v in (2, 3)) else -v), failed)
 
+    def do_ToBus(self, c, what):
+        assert what == 'OwnBusName', what
+        # the bus's own name: no client can have it
+        self.conn(c).requestBusName('org.freedesktop.DBus', doNotQueue=True,
+                                    errbackUnlessAcquired=False).addCallbacks(*self._result(c, 'RequestName'))
+
     def do_ReleaseName(self, c, n):
         self.conn(c).releaseBusName(bd.name_str(n)).addCallbacks(*self._result(c, 'ReleaseName'))
 
